@@ -25,7 +25,7 @@ RULE = ("(a) exhaustive: every rule-tree shape with <= N branches (N=4 quick, 5 
         "refinement / alternative, alternatives under refinements) x every assignment of branch conditions from "
         "{a>2, b>2, c>2, always-true} on the 8-object cube {1,3}^3, where every branch both fires and does not fire, chains of >= 2 alternatives "
         "in both declaration styles (nested `with` blocks / sibling `with` blocks); "
-        "(b) random thresholds and 3-7 random objects; (c) random trees in which one branch joins a second variable (l.src == x, 0-2 links per item) so that there is one row and one conclusion per link, with branches below it testing the link; every tree is evaluated twice. Non-trivial: at least two different conclusions are produced "
+        "(b) random thresholds and 3-7 random objects; (c) random trees in which one branch joins a second variable (l.src == x, 0-2 links per item) so that there is one row and one conclusion per link, with branches below it testing the link; every tree is evaluated twice; a share of the trees is also built incrementally (evaluated, then extended by the root's alternatives in a later rule_mode(query) session, then evaluated three times). Non-trivial: at least two different conclusions are produced "
         "and at least one object gets none or an overridden one; distinct by (tree, data).")
 LEVEL_TEXT = ("Reference-model monitoring: the real rule tree (Add conclusions, refinement(), alternative() under "
               "rule_mode(query)) is evaluated and the inferred instances are compared, as a multiset of (conclusion tag, "
@@ -142,16 +142,26 @@ def floors(tier):
     return {"distinct_nontrivial": 300, "re:ExceptIf(@.*)?\\.enter": 500, "re:Alternative(@.*)?\\.enter": 500,
             "cls:shape:ref_in_ref": 20, "cls:shape:ref_in_alt": 20, "cls:shape:alt_in_ref": 20, "cls:shape:alt_chain": 20,
             "cls:overridden": 200, "cls:alt_fired": 200, "cls:caching_off": 50,
-            "cls:style:sibling_alternatives": 200, "cls:join_in_tree": 300, "cls:join_item_with_two_links": 200, "cls:alternative_declared_before_refinement": 200, "re:cls:longest_alternative_chain=[3-9]": 50}
+            "cls:style:sibling_alternatives": 200, "cls:join_in_tree": 300, "cls:tree_extended_after_it_was_evaluated": 150, "cls:join_item_with_two_links": 200, "cls:alternative_declared_before_refinement": 200, "re:cls:longest_alternative_chain=[3-9]": 50}
+
+
+def _rand_cond(rng, depth=0):
+    k = rng.random()
+    if k < 0.25:
+        a1, a2 = rng.sample("abc", 2)
+        return ["cmp2", a1, a2]                     # literal-free: the operator caches are actually consulted
+    if k < 0.45 and depth == 0:
+        return ["and2", _rand_cond(rng, 1), _rand_cond(rng, 1)]
+    return [rng.choice("abc"), rng.randint(0, 3)]
 
 
 def gen_case(rng):
     n = rng.randint(1, 5)
     sh = rng.choice(shapes(n))
-    conds = [[rng.choice("abc"), rng.randint(0, 3)] for _ in range(n)]
+    conds = [_rand_cond(rng) for _ in range(n)]
     data = [[rng.randint(1, 4) for _ in range(3)] for _ in range(rng.randint(3, 7))]
     return {"tree": label(sh, conds), "data": data, "caching": rng.random() < 0.7, "sibling": rng.random() < 0.5,
-            "alt_first": rng.random() < 0.4}
+            "alt_first": rng.random() < 0.4, "incremental": rng.random() < 0.4}
 
 
 def gen_join_case(rng):
@@ -207,7 +217,7 @@ def cases(spec, ctx):
             if i % spec["stride"] == spec["offset"]:
                 yield {"tree": tree, "data": "cube", "caching": (i // spec["stride"]) % 5 != 0}
                 if _longest_alt_chain(tree) >= 2:
-                    yield {"tree": tree, "data": "cube", "caching": True, "sibling": True}
+                    yield {"tree": tree, "data": "cube", "caching": True, "sibling": True, "incremental": (i // spec["stride"]) % 3 == 0}
                 if _has_ref_and_alt(tree):
                     yield {"tree": tree, "data": "cube", "caching": True, "alt_first": True, "sibling": (i // spec["stride"]) % 2 == 0}
         return
@@ -217,7 +227,22 @@ def cases(spec, ctx):
 
 # ------------------------------------------------------------------------------------------------ reference interpreter
 def holds(cond, o):
+    """cond = [attr, threshold] | ["cmp2", attr1, attr2] (x.attr1 > x.attr2, no literal) | ["and2", cond, cond] (two
+    conditions passed to refinement()/alternative(), which chains them with and_)"""
+    if cond[0] == "cmp2":
+        return getattr(o, cond[1]) > getattr(o, cond[2])
+    if cond[0] == "and2":
+        return holds(cond[1], o) and holds(cond[2], o)
     return getattr(o, cond[0]) > cond[1]
+
+
+def sym(cond, x):
+    """the list of EQL conditions for a branch condition"""
+    if cond[0] == "cmp2":
+        return [getattr(x, cond[1]) > getattr(x, cond[2])]
+    if cond[0] == "and2":
+        return sym(cond[1], x) + sym(cond[2], x)
+    return [getattr(x, cond[0]) > cond[1]]
 
 
 def fire(node, o):
@@ -250,7 +275,7 @@ def _rows(cond, x, l, links):
         return [k for k in cands if k.src is x and k.w > cond[1]]
     if cond[0] == "lw":
         return [l] if (l is not None and l.w > cond[1]) else []
-    return [l] if getattr(x, cond[0]) > cond[1] else []
+    return [l] if holds(cond, x) else []
 
 
 def jfire(node, x, l, links):
@@ -273,7 +298,7 @@ def _sym_conds(cond, x, l):
         return [l.src == x, l.w > cond[1]]
     if cond[0] == "lw":
         return [l.w > cond[1]]
-    return [getattr(x, cond[0]) > cond[1]]
+    return sym(cond, x)
 
 
 def _build_join_branch(node, x, l, out, bound, sibling, alt_first, with_alt=True):
@@ -321,7 +346,7 @@ def _build_branch(node, x, out, sibling=False, with_alt=True, alt_first=False):
 
     def declare_refinement():
         if ref is not None:
-            with refinement(getattr(x, ref[0][0]) > ref[0][1]):
+            with refinement(*sym(ref[0], x)):
                 _build_branch(ref, x, out, sibling, alt_first=alt_first)
 
     def declare_alternatives():
@@ -329,11 +354,11 @@ def _build_branch(node, x, out, sibling=False, with_alt=True, alt_first=False):
         if not with_alt or a is None:
             return
         if not sibling:
-            with alternative(getattr(x, a[0][0]) > a[0][1]):
+            with alternative(*sym(a[0], x)):
                 _build_branch(a, x, out, sibling, alt_first=alt_first)
             return
         while a is not None:
-            with alternative(getattr(x, a[0][0]) > a[0][1]):
+            with alternative(*sym(a[0], x)):
                 _build_branch(a, x, out, sibling, with_alt=False, alt_first=alt_first)
             a = a[3]
 
@@ -353,7 +378,7 @@ def build(case, objs, links=None):
         x = let(N, objs)
         out = let(Out)
         l = let(L, links) if case.get("join") else None
-        q = infer(entity(out, getattr(x, tree[0][0]) > tree[0][1]))
+        q = infer(entity(out, *sym(tree[0], x)))
     with rule_mode(q):
         if case.get("join"):
             _build_join_branch(tree, x, l, out, False, bool(case.get("sibling")), bool(case.get("alt_first")))
@@ -379,6 +404,38 @@ def run(case, objs, caching, times=1, links=None):
         idx = {id(o): i for i, o in enumerate(objs)}
         lidx = {id(k): i for i, k in enumerate(links)} if case.get("join") else None
         return [[encode(o, idx, lidx) for o in q.evaluate()] for _ in range(times)]
+    finally:
+        enable_caching()
+
+
+def run_incremental(case, objs, caching):
+    """The ripple-down workflow: build the tree without the root's alternatives, evaluate, add the alternatives in a later
+    rule_mode(query) session, evaluate three more times.  -> [(rows, expected rows), ...]"""
+    from entity_query_language import symbolic_mode, let, entity, infer
+    from entity_query_language.rule import alternative
+    from entity_query_language.symbolic import rule_mode
+    from entity_query_language.cache_data import enable_caching, disable_caching
+    tree = case["tree"]
+    first = [tree[0], tree[1], tree[2], None]
+    idx = {id(o): i for i, o in enumerate(objs)}
+    (enable_caching if caching else disable_caching)()
+    try:
+        with symbolic_mode():
+            x = let(N, objs)
+            out = let(Out)
+            q = infer(entity(out, *sym(tree[0], x)))
+        with rule_mode(q):
+            _build_branch(first, x, out, sibling=bool(case.get("sibling")), alt_first=False)
+        res = [([encode(o, idx) for o in q.evaluate()], expected({"tree": first}, objs))]
+        with rule_mode(q):              # a later session extends the evaluated tree
+            a = tree[3]
+            while a is not None:
+                with alternative(*sym(a[0], x)):
+                    _build_branch(a, x, out, sibling=True, with_alt=False)
+                a = a[3]
+        for _ in range(3):
+            res.append(([encode(o, idx) for o in q.evaluate()], expected({"tree": tree}, objs)))
+        return res
     finally:
         enable_caching()
 
@@ -458,6 +515,18 @@ def check_case(case, ctx):
         ctx.fail("CONCLUSIONS:second_evaluation", {"n_expected": len(exp), "n_observed": len(got_again),
                                                    "missing": list((Counter(exp) - Counter(got_again)).elements())[:8],
                                                    "extra": list((Counter(got_again) - Counter(exp)).elements())[:8]})
+    if case.get("incremental") and not case.get("join") and case["tree"][3] is not None:
+        ctx.cls("cls:tree_extended_after_it_was_evaluated")
+        try:
+            for n, (rows, want) in enumerate(run_incremental(case, _objs(case) if case["data"] != "cube" else objs, case["caching"])):
+                if Counter(rows) != Counter(want):
+                    ctx.fail("CONCLUSIONS:incremental", {"evaluation_no": n + 1, "extended": n >= 1,
+                                                         "missing": list((Counter(want) - Counter(rows)).elements())[:8],
+                                                         "extra": list((Counter(rows) - Counter(want)).elements())[:8]})
+                    break
+        except Exception as e:
+            import traceback
+            ctx.fail("EXC", f"incremental: {type(e).__name__}: {e}\n{traceback.format_exc()[-800:]}")
     ctx.sample({"tree": case["tree"], "data": case["data"], "links": case.get("links"), "expected": exp[:6], "observed": got[:6]})
 
 
